@@ -49,6 +49,7 @@ class CompileCase:
         self.XX = getattr(cs, symtype)
         self.sym_keys = list(sym_keys)
         self.shared_inner_mapping, self.shared_inner_mapping_written = None, []
+        self.parameters_modified_by_compile = None
         self.fixed = {}  # (element id, variable) -> number supplied instead of a symbol
         self.scaled = {}  # (element id, variable) -> (a, b): the step was given a + b * symbol
         self.tied = {}  # (element id, variable) -> n: the step was given repmat(u, n, 1) of one scalar MX symbol
@@ -190,12 +191,17 @@ class CompileCase:
             # step is built (same `parameters` dictionary, flow outputs on), then the dynamics are stepped
             # again through the element-level calls with the other T (Network.step would create new
             # variables), and everything later refers to that last step
+            before_ = list(self.parameters.items())
             try:
                 other0 = {k: v for k, v in self.spars.items() if v is not None and k not in self.parameters}
                 self.engine.to_function(self.built.net, compact=rng.choice((0, 1, 2)), more_out=True,
                                         parameters=(self.parameters or None), **other0)
             except Exception:
                 pass
+            if [(k_, id(v_)) for k_, v_ in self.parameters.items()] != [(k_, id(v_)) for k_, v_ in before_]:
+                self.parameters_modified_by_compile = sorted(set(map(str, self.parameters)) ^ set(k_ for k_, _v in before_)) or ["(order / values)"]
+                self.parameters.clear()
+                self.parameters.update(before_)
             self.pars = dict(self.pars, T=restep_T)
             self.spars = dict(self.spars, T=restep_T)
             nxt_opts = {k: v for k, v in self.opts.items() if k.startswith("positive_next")}
@@ -261,7 +267,16 @@ class CompileCase:
             D.FORM_STATS["to_function: parameters held in " + type(pmap).__name__] = D.FORM_STATS.get("to_function: parameters held in " + type(pmap).__name__, 0) + 1
         assert pmap is None or list(pmap) == list(self.parameters)
         vals = {"net": self.built.net, "compact": level, "more_out": more_out, "parameters": pmap}
-        return D.callform(self.compile_engine.to_function, D.ORDER["to_function"], vals, 1, extra=other)
+        before = list(self.parameters.items())
+        try:
+            return D.callform(self.compile_engine.to_function, D.ORDER["to_function"], vals, 1, extra=other)
+        finally:
+            # the caller's mapping is the caller's: if the call changed it, that is recorded (the checks decide what it means for
+            # their property) and undone, so that the harness goes on with what IT declared
+            if [(k_, id(v_)) for k_, v_ in self.parameters.items()] != [(k_, id(v_)) for k_, v_ in before]:
+                self.parameters_modified_by_compile = sorted(set(map(str, self.parameters)) ^ set(k_ for k_, _v in before)) or ["(order / values)"]
+                self.parameters.clear()
+                self.parameters.update(before)
 
     def effective(self, vals):
         """`vals` with the variables that were supplied as numbers set to those numbers."""
